@@ -106,8 +106,11 @@ def _bool_switches(body, l, negate=False, depth=0):
     return res
 
 
-def result_tests(body, local):
-    """Tests of a Result-valued local: `?`, match/if-let, is_err()/is_ok()."""
+OKNESS_PRESERVING = {"std::result::Result::map_err", "std::result::Result::map", "std::result::Result::inspect_err", "std::result::Result::inspect"}
+
+
+def result_tests(body, local, _depth=0):
+    """Tests of a Result-valued local: `?`, match/if-let, is_err()/is_ok() (also behind map_err / map)."""
     tests = []
     al = forward_aliases(body, local)
     for b in range(body.n):
@@ -139,6 +142,9 @@ def result_tests(body, local):
                             tests.append(Test("is_err", sb, fl, tr, body))
                         else:
                             tests.append(Test("is_ok", sb, tr, fl, body))
+                elif nm in OKNESS_PRESERVING and not t["dest"]["p"] and _depth < 3:
+                    # `.map_err(f)?`, `.map(g)?`: Ok stays Ok and Err stays Err, so a test of the adapted result is a test of this one
+                    tests += result_tests(body, t["dest"]["l"], _depth + 1)
     return tests
 
 
